@@ -2501,12 +2501,33 @@ pub fn handle_fakekey_action<'a, const C: usize, const R: usize, T>(
             layout.event(Event::Release(x, y));
         }
         FakeKeyAction::Toggle => {
-            match states_has_coord(&layout.states, x, y) {
+            match vkey_is_or_will_be_pressed(layout, x, y) {
                 true => layout.event(Event::Release(x, y)),
                 false => layout.event(Event::Press(x, y)),
             };
         }
     };
+}
+
+/// Returns whether the virtual key is pressed once the events that are still queued for it,
+/// e.g. the press from a toggle a moment ago, have been processed.
+fn vkey_is_or_will_be_pressed<'a, const C: usize, const R: usize, T>(
+    layout: &Layout<'a, C, R, T>,
+    x: u8,
+    y: u16,
+) -> bool
+where
+    T: 'a + std::fmt::Debug + Copy,
+{
+    let mut pressed = states_has_coord(&layout.states, x, y);
+    for queued in layout.queue.iter() {
+        match queued.event() {
+            Event::Press(i, j) if (i, j) == (x, y) => pressed = true,
+            Event::Release(i, j) if (i, j) == (x, y) => pressed = false,
+            _ => {}
+        }
+    }
+    pressed
 }
 
 fn states_has_coord<T>(states: &[State<T>], x: u8, y: u16) -> bool {
